@@ -39,7 +39,7 @@ QUICK_JOBS = 12
 MIN_MONITORS = {"*": {"stat.chi_squared": 20, "stat.noise_normalization": 20, "stat.log_likelihood": 20, "garbage.invariance": 10,
                       "map.residual_flux_fraction": 20, "map.signal_to_noise": 20, "evidence.terms": 10, "evidence.composition": 10,
                       "figure_of_merit": 20, "contract:fit_util.log_evidence_from": 5,
-                      "util.masked_helpers": 20, "interf.signal_to_noise_map": 20, "interf.normalized_residual_map": 20, "interf.chi_squared_map": 20, "interf.chi_squared": 20,
+                      "util.masked_helpers": 20, "sky.default_model_not_shared": 20, "interf.signal_to_noise_map": 20, "interf.normalized_residual_map": 20, "interf.chi_squared_map": 20, "interf.chi_squared": 20,
                       "interf.noise_normalization": 20, "interf.log_likelihood": 20, "interf.log_evidence": 5, "interf.dirty_maps": 20}}
 
 
@@ -238,6 +238,23 @@ def run_plain(ctx, i):
                 ctx.check(False, "garbage.invariance", exception=repr(e)[:300], **W)
     if len(stats) == 2:
         ctx.check(stats[0] == stats[1], "garbage.invariance", first=stats[0][:4], second=stats[1][:4], **W)
+    # --- fits made without a dataset model, one of which has its (own) default model edited afterwards: the next fit made without a
+    #     dataset model still has no sky offset, and the first still has the one it was given
+    if i % 3 == 2:
+        fa = ctx.Fit(ds, aa.Array2D(values=c["md"].copy(), mask=mask), None, use_mask_in_fit=False)
+        try:
+            fa.dataset_model.background_sky_level = 0.35 * float(np.abs(c["d"]).max())
+            edited = True
+        except Exception:
+            edited = False
+        if edited:
+            fb = ctx.Fit(ds, aa.Array2D(values=c["md"].copy(), mask=mask), None, use_mask_in_fit=False)
+            D0 = definitions(c["d"][~m], c["nz"][~m], c["md"][~m])
+            ok, rb = ctx.guarded("sky.default_model_not_shared", lambda: _np(fb.residual_map))
+            if ok:
+                ctx.check(bool(np.all(np.abs(rb - D0["residual"]) <= 1e-12 * np.maximum(1.0, np.abs(D0["residual"])))) and rel(_f(fb.chi_squared), D0["chi"]),
+                          "sky.default_model_not_shared", note="a fit made without a dataset model after another fit's default model was given a sky level",
+                          got=rb, expected=D0["residual"], **W)
     # --- a fit that carries its own (scaled) noise map, in both modes: residuals / chi-squared / normalization / likelihood all with it
     if i % 3 == 0:
         nz2 = c["nz"] * np.exp(rng.uniform(-1.5, 1.5, size=c["nz"].shape))
